@@ -864,6 +864,15 @@ func (f *frame) binop(op token.Token, x, y Term, rs *Sort, ins ssa.Instruction) 
 			default:
 				e = eq(x, y)
 			}
+		} else if at, ok := arrayOf(x.T); ok && at.Len() <= 16 {
+			// Go compares arrays element by element over their length (the SMT arrays are total)
+			var parts []Term
+			es := u.tc.sortOf(at.Elem())
+			for i := int64(0); i < at.Len(); i++ {
+				ix := Term{fmt.Sprint(i), sInt}
+				parts = append(parts, eq(sel(x, ix, es), sel(y, ix, es)))
+			}
+			e = and(parts...)
 		} else {
 			e = eq(x, y)
 		}
@@ -1158,4 +1167,12 @@ func (u *Unit) bumpAlloc(st *State, n Term) {
 	}
 	a := u.ghost(st, "allocated", sInt)
 	u.setGhost(st, "allocated", add(a, n))
+}
+
+func arrayOf(s *Sort) (*types.Array, bool) {
+	if s == nil || s.K != KArray || s.Go == nil {
+		return nil, false
+	}
+	at, ok := s.Go.Underlying().(*types.Array)
+	return at, ok
 }
